@@ -324,6 +324,48 @@ def job_autocrash(job, tmp):
             "ref_t": rt[:40], "t": gt[:40], "cycles": done}
 
 
+CADENCE_FIELDS = ("simulationarchive_auto_interval", "simulationarchive_auto_walltime", "simulationarchive_auto_step",
+                  "simulationarchive_next", "simulationarchive_next_step")
+
+
+def job_autolive(job, tmp):
+    """all three automatic cadences, driven ONE step per integrate() call, so that the live simulation can be inspected
+    right after the call in which a snapshot was written: the restored snapshot must equal the live simulation in both
+    directions (masked streams equal), in particular in the cadence members next / next_step / auto_*.  A snapshot written
+    by the heartbeat BEFORE the step of this call is compared in its cadence members only (they are not touched by a step)."""
+    fname = os.path.join(tmp, "al.bin")
+    if os.path.exists(fname):
+        os.remove(fname)
+    sim = L.new_sim(rebound, job["spec"])
+    for _ in range(job.get("presteps", 0)):
+        sim.step()
+    mode = job["mode"]
+    _attach(sim, fname, mode, job["val"])
+    bad = []; nsnap = 0; full = 0; size = -1
+    ids = {n: FT[n][0] for n in CADENCE_FIELDS}
+    for i in range(job["nsteps"]):
+        sim.integrate(sim.t + 0.5 * sim.dt, exact_finish_time=0)
+        sz = os.path.getsize(fname) if os.path.exists(fname) else -1
+        if sz == size:
+            continue
+        size = sz
+        sa = rebound.Simulationarchive(fname, process_warnings=False)
+        grown = int(sa.nblobs) - nsnap; nsnap = int(sa.nblobs)
+        snap = sa[-1]
+        a = L.masked(rebound, L.stream_of(rebound, snap), FT)
+        b = L.masked(rebound, L.stream_of(rebound, sim), FT)
+        if snap.steps_done == sim.steps_done:
+            full += 1
+            dif = L.diff_masked(a, b, FT)
+        else:
+            dif = [n for n in CADENCE_FIELDS if a.get(ids[n]) != b.get(ids[n])] if grown == 1 else []
+        if dif:
+            bad.append({"call": i, "snapshot": nsnap - 1, "fields": dif, "snapshot_steps_done": int(snap.steps_done), "live_steps_done": int(sim.steps_done),
+                        "snapshot_next_step": int(snap.simulationarchive_next_step), "live_next_step": int(sim.simulationarchive_next_step),
+                        "snapshot_next": snap.simulationarchive_next, "live_next": sim.simulationarchive_next})
+    return {"nsnap": nsnap, "full_compares": full, "bad": bad[:4], "nbad": len(bad)}
+
+
 def job_autoF(job, tmp):
     """interval cadence in binary64: the heartbeat times (before every step and after each integrate call), the library's
     snapshot times and the final accumulated threshold simulationarchive_next"""
@@ -414,7 +456,7 @@ def main():
     with tempfile.TemporaryDirectory(prefix="c06drv") as tmp:
         for job in jobs:
             try:
-                r = {"hist": job_hist, "auto": job_auto, "open": job_open, "resume": job_resume, "spoof": job_spoof, "cycle": job_cycle, "many": job_many, "attach": job_attach, "autocrash": job_autocrash, "autoF": job_autoF}[job["kind"]](job, tmp)
+                r = {"hist": job_hist, "auto": job_auto, "open": job_open, "resume": job_resume, "spoof": job_spoof, "cycle": job_cycle, "many": job_many, "attach": job_attach, "autocrash": job_autocrash, "autoF": job_autoF, "autolive": job_autolive}[job["kind"]](job, tmp)
             except Exception as e:
                 import traceback
                 r = {"exception": "%r" % (e,), "tb": traceback.format_exc()[-600:]}
